@@ -27,7 +27,8 @@ assumptions = [
     "glibc strtoimax/strtoumax follow the modelled grammar (C locale, bases 0/8/10/16, saturation with ERANGE); "
     "isspace/isgraph are the C-locale tables, undefined outside 0..255",
     "strtof/strtod/strtold are not modelled: floating targets of text are checked differentially against an exact rational "
-    "oracle computed in vlib/props/c07.py",
+    "oracle computed in vlib/props/c07.py (they convert the longest numeral prefix and round to nearest-even; glibc 2.36 "
+    "misrounds inexact hexadecimal numerals in the subnormal range, such numerals are not generated)",
     "NaN sources are limited to the default quiet NaN; float->integer conversions are refused by the code (BadType) and only sampled",
 ]
 trusted = [
@@ -317,17 +318,174 @@ def scripts(tier, seed, scale=1):
             text = "".join(r.choice(" -+0x19afz\t") for _ in range(r.randrange(0, 6)))
         ops.append("c text %s %s %s" % (fn, t, gen.hexs(text.encode())))
     out += _chunks("rnd:text", ops, 25)
+    out += _chunks("rnd:ftext", _ftext_random(r, nrand // 4), 25)
     return out
 
 
 # ---------------------------------------------------------------------------------------------- float text (differential oracle)
 
+import re
+
+_FNUM = re.compile(
+    r"[ \t\n\v\f\r]*(?P<sign>[+-]?)(?:"
+    r"0[xX](?P<hi>[0-9a-fA-F]*)(?:\.(?P<hf>[0-9a-fA-F]*))?(?:[pP](?P<he>[+-]?[0-9]+))?"
+    r"|(?P<di>[0-9]*)(?:\.(?P<df>[0-9]*))?(?:[eE](?P<de>[+-]?[0-9]+))?"
+    r"|(?P<inf>[iI][nN][fF](?:[iI][nN][iI][tT][yY])?)"
+    r"|(?P<nan>[nN][aA][nN])"
+    r")")
+
+
+def float_numeral(text):
+    """exact value of a complete floating numeral (strtod grammar, C locale): (negative, Fraction | 'inf' | 'nan') or None"""
+    m = _FNUM.fullmatch(text)
+    if not m:
+        return None
+    neg = m.group("sign") == "-"
+    if m.group("inf"):
+        return neg, "inf"
+    if m.group("nan"):
+        return neg, "nan"
+    if m.group("hi") is not None:
+        hi, hf = m.group("hi"), m.group("hf") or ""
+        if not hi and not hf:
+            return None
+        v = Fraction(int(hi + hf, 16), 16 ** len(hf))
+        if m.group("he"):
+            v *= Fraction(2) ** int(m.group("he"))
+        return neg, v
+    di, df = m.group("di") or "", m.group("df") or ""
+    if not di and not df:
+        return None
+    v = Fraction(int(di + df), 10 ** len(df))
+    if m.group("de"):
+        v *= Fraction(10) ** int(m.group("de"))
+    return neg, v
+
+
+def ftext_oracle(tgt, data):
+    """all (k, value text) such that the first k bytes of the C string are a floating numeral; value text = value bytes of the
+    correctly rounded number in the target format, 'nan', or 'ovf' for a finite number that rounds to infinity"""
+    text = data.split(b"\0")[0].decode("latin-1")
+    out = []
+    ks = range(1, len(text) + 1)
+    if len(text) > 48:
+        # long numerals (decimal expansions of the format limits): only the shortest and the longest prefixes are listed
+        ks = list(range(1, 9)) + list(range(len(text) - 3, len(text) + 1))
+    for k in ks:
+        r = float_numeral(text[:k])
+        if r is None:
+            continue
+        neg, v = r
+        if v == "inf":
+            out.append((k, encode(tgt, "-inf" if neg else "inf")))
+        elif v == "nan":
+            out.append((k, "nan"))
+        else:
+            x = round_to(tgt, -v if neg else v)
+            if x in ("inf", "-inf"):
+                out.append((k, "ovf"))
+            else:
+                out.append((k, encode(tgt, x, negzero=neg and x == 0)))
+    return out
+
+
+def _libc_quirk(tgt, data):
+    """glibc 2.36 misrounds hexadecimal numerals whose value is inexact in the subnormal range of the target
+    (e.g. strtof("0x1.000001p-150") = 0, nearest is 2^-149): libc, not the code under test -> not generated"""
+    text = data.split(b"\0")[0].decode("latin-1")
+    for k in range(len(text), 0, -1):
+        r = float_numeral(text[:k])
+        if r is None:
+            continue
+        neg, v = r
+        if isinstance(v, Fraction) and "x" in text[:k].lower() and v != 0:
+            p, emin, emax = FLTS[tgt][:3]
+            return v < Fraction(2) ** emin and round_to(tgt, v) != v
+        return False
+    return False
+
+
+def _ftext_op(fn, tgt, text):
+    data = text.encode("latin-1") if isinstance(text, str) else text
+    if _libc_quirk(tgt, data):
+        return "# skipped (libc hex subnormal rounding): %s %s" % (tgt, gen.hexs(data))
+    alts = ftext_oracle(tgt, data)
+    return "c ftext %s %s %s %s" % (fn, tgt, gen.hexs(data), ",".join("%d:%s" % a for a in alts) or "-")
+
+
+if hasattr(sys, "set_int_max_str_digits"):
+    sys.set_int_max_str_digits(0)      # LDBL_MAX has 4933 decimal digits
+
+
+def _dec(x, frac=40):
+    """exact decimal numeral of a non-negative Fraction whose expansion terminates within `frac` fractional digits
+    (truncated there otherwise)"""
+    n = x.numerator * 10 ** frac // x.denominator
+    s = str(n).rjust(frac + 1, "0")
+    return (s[:-frac] + "." + s[-frac:]).rstrip("0").rstrip(".")
+
+
+def _ftext_numerals(tgt):
+    p, emin, emax = FLTS[tgt][:3]
+    out = ["", " ", "\t ", "0", "-0", "+0.0", ".5", "5.", ".", "-.5e-3x", "e5", "1e", "1e+", "1e+5", "1E5", "12abc", " 12.5 ", "0x", "0x.", "0x1p", "0x1p3",
+           "0x1.8p1", "0X.8P+4", "inf", "-inf", "+INF", "infinity", "-Infinity", "infx", "in", "nan", "-nan", "nanx", "1_0", "--1", "+-1", "1..2", "1.2.3",
+           "0x1.fffffep127", "0x1.ffffffp127", "0x1.fffffefp127", "0x1.ffffff0000001p127", "0x1p128", "-0x1p128", "0x1p-149", "0x1p-150", "0x1.000001p-150",
+           "0x1.fffffffffffffp1023", "0x1.fffffffffffff8p1023", "0x1.fffffffffffff7ffp1023", "0x1p1024", "0x1p-1074", "0x1p-1075", "0x1.8p-1075",
+           "0x1.fffffffffffffffep16383", "0x1.ffffffffffffffffp16383", "0x1p16384", "0x1p-16445", "0x1p-16446",
+           "1e38", "1e39", "-1e39", "3.4028234e38", "3.4028235e38", "3.4028236e38", "1e308", "1e309", "1.7976931348623157e308", "1.7976931348623159e308",
+           "1e4932", "1e4933", "-1e4933", "1.18973149535723176502e4932", "1.18973149535723176509e4932", "1e-45", "1e-46", "7e-46", "4.9e-324", "2e-324", "1e-4951", "1e-5000",
+           "16777217", "16777219", "9007199254740993", "18446744073709551617", "0.1", "0.3", "123456789.123456789", "1e22", "1e23", "8.5", "33.25"]
+    m = fmax(tgt)
+    half = Fraction(2) ** (emax - p)          # half an ulp of the largest binade
+    for x in (m, m + half, m + half - half / 2 ** 30, m + half + half / 2 ** 30, m - half, Fraction(2) ** (emax + 1)):
+        out.append(_dec(x))
+        out.append("-" + _dec(x))
+    tiny = Fraction(2) ** (emin - (p - 1))
+    for x in (tiny, tiny / 2, tiny / 2 + tiny / 2 ** 40, tiny * 3 / 2):
+        e10 = 0
+        y = x
+        while y < 1:
+            y *= 10
+            e10 -= 1
+        out.append(_dec(y, 60) + "e%d" % e10)
+    return out
+
+
 def _ftext_scripts(t, thorough):
-    return []
+    nums = _ftext_numerals(t)
+    ops = []
+    for k, x in enumerate(nums):
+        for fn in ("cflt", "number", "string"):
+            if thorough or fn == "cflt" or k % 3 == 0:
+                ops.append(_ftext_op(fn, t, x))
+    return _chunks("fnum:%s" % t, ops, 10)
 
 
-def ftext_oracle(tgt, text):
-    return None
+def _ftext_random(r, n):
+    ops = []
+    for _ in range(n):
+        t = r.choice(list(FLTS))
+        fn = r.choice(["cflt", "number", "string"])
+        kind = r.random()
+        if kind < 0.6:
+            nd = r.choice([1, 3, 8, 9, 17, 18, 21, 40])
+            digs = "".join(r.choice("0123456789") for _ in range(nd))
+            dot = r.randrange(0, nd + 1)
+            body = digs[:dot] + r.choice([".", ".", ""]) + digs[dot:] if r.random() < 0.7 else digs
+            if r.random() < 0.7:
+                body += r.choice("eE") + r.choice(["", "-", "+"]) + str(r.choice([r.randrange(0, 50), r.randrange(0, 400), r.randrange(0, 5200)]))
+        elif kind < 0.85:
+            nd = r.choice([1, 6, 7, 13, 14, 16, 17, 20])
+            digs = "".join(r.choice("0123456789abcdef") for _ in range(nd))
+            dot = r.randrange(0, nd + 1)
+            body = "0x" + digs[:dot] + "." + digs[dot:]
+            if r.random() < 0.8:
+                body += "p" + r.choice(["", "-", "+"]) + str(r.choice([r.randrange(0, 160), r.randrange(0, 1100), r.randrange(0, 16500)]))
+        else:
+            body = "".join(r.choice(" -+.0x19efpinfa") for _ in range(r.randrange(0, 8)))
+        text = r.choice(["", "", " ", "\t "]) + r.choice(["", "", "-", "+"]) + body + r.choice(["", "", "", " ", "x", "e", ".5"])
+        ops.append(_ftext_op(fn, t, text))
+    return ops
 
 
 # ---------------------------------------------------------------------------------------------- evidence hooks
